@@ -53,6 +53,11 @@ class Origins:
                         return ("arg", c if c is not None else "?")
                     if e[0] == "cidx":
                         return ("arg", e[1])
+            # field of a locally built tuple / aggregate: the origin of that component
+            if proj[0][0] == "field" and len(proj) == 1:
+                sd = fn.single_def(l)
+                if sd and sd[0] == "assign" and sd[1]["k"] == "agg" and proj[0][1] < len(sd[1]["ops"]):
+                    return self.of_operand_d(sd[1]["ops"][proj[0][1]], depth + 1)
             base = self.of_local(l, depth + 1)
             idx = [e for e in proj if e[0] in ("index", "cidx")]
             if idx:
